@@ -469,7 +469,9 @@ impl Parser {
                 let start2 = self.preback();
 
                 let mut x = ast::Expression::Ident(self.identifier()?);
-                if !self.current_is(Operator::BarackRight) {
+                // `P [` starts a type parameter whose constraint is an array or slice type
+                // (`type T[P []int] …`): there is nothing to parse as an expression
+                if !self.current_is(Operator::BarackRight) && !self.current_is(Operator::BarackLeft) {
                     self.inc_expr_level()?;
                     let p = self.primary_expression(Some(x))?;
                     x = self.binary_expression(Some(p), 0)?;
